@@ -80,6 +80,21 @@ def cases(ctx):
                             if mapping is None:
                                 c["rom"] = "low"       # the command line's default mapping
                         out.append(c)
+    # writes over bytes already written (the later block lower / higher / inside): the last write wins in every output
+    for mapping, base in (("low", 0x008000), ("high", 0x400000), ("low2", 0x808000)):
+        for fmt in ("ips", "sfc"):
+            for copier in ((False, True) if fmt == "ips" else (False,)):
+                for a, na, b, nb in ((4, 4, 0, 6), (0, 6, 4, 4), (0, 8, 2, 3), (2, 3, 0, 8), (0, 4, 0, 4)):
+                    src = (f"*={base + a:#08x}\n.db " + ", ".join(str(0x10 + i) for i in range(na)) + "\n"
+                           f"*={base + b:#08x}\n.db " + ", ".join(str(0xA0 + i) for i in range(nb)) + "\n")
+                    out.append({"kind": f"overlap:{fmt}:{mapping}:{a}:{b}", "rom": mapping, "mapping": mapping, "format": fmt,
+                                "copier": copier, "defines": {}, "src": src, "api": True, "cli": a == 4, "spec": {"t": "c12"}})
+    # one contiguous block longer than an IPS record can hold (split into records), with and without the copier header
+    blob = [(i * 7 + 3) & 0xFF for i in range(0x10005 if tier == "quick" else 0x20003)]
+    for copier in (False, True):
+        out.append({"kind": f"long-block:{copier}", "rom": "low", "mapping": "low", "format": "ips", "copier": copier, "defines": {},
+                    "files": {"big.bin": blob}, "src": "*=0x008000\nstart:\n.incbin 'big.bin'\nend:\n.dl start, end\n",
+                    "api": True, "cli": copier, "spec": {"t": "c12"}})
     # -D values given as expressions, a later one using an earlier one, and malformed ones (the command line must fail)
     for texts, vals, ok in (({"A1": "0x10", "B2": "A1 + 2", "C3": "(A1 | B2) << 1"}, {"A1": 0x10, "B2": 0x12, "C3": 0x24}, True),
                             ({"A1": "~0xF0 & 0xFF", "B2": "-1 + 3"}, {"A1": 0x0F, "B2": 2}, True),
